@@ -192,6 +192,7 @@ def run(ctx):
     every_resolved_cgroup_is_returned(ctx, "C08")      # a detector reads an empty result as 'watched value 0'
     # a detector with a duration keeps its window in the plugin: it judges 'for N seconds' only if it is run on every tick
     detector_walk_every_tick(ctx, "C08")
+    detector_group_runs_every_detector(ctx, "C08")
     from .C16 import resolve_rule
     resolve_rule(ctx)          # `exists` answers by what resolveWildcard returns: existing cgroup DIRECTORIES only
     percent_threshold_exact(ctx, "C08")
